@@ -88,10 +88,10 @@ type predCtx struct {
 	maskPars map[*types.Var]string // mask parameter -> "P0", "P1"
 	// maskFields: struct parameter -> its mask field -> "P0", "P1"
 	maskFields map[*types.Var]map[*types.Var]string
-	obsVar   *types.Var            // loop variable over observers
-	evtParam *types.Var
-	fail     string
-	eff      *core.Effects
+	obsVar     *types.Var // loop variable over observers
+	evtParam   *types.Var
+	fail       string
+	eff        *core.Effects
 	// frames: parameter/receiver bindings of the boolean helpers currently being inlined (innermost last)
 	frames []map[types.Object]ast.Expr
 }
@@ -1144,15 +1144,15 @@ func c08r3(c *core.Ctx) {
 		}
 	}
 	core.InspectNoLits(reg.Body, func(n ast.Node) bool {
-		switch x := n.(type) {
-		case *ast.RangeStmt:
-			src := fieldOfSel(x.X)
+		if lsrc, lbody, isLoop := elementLoop(m, n); isLoop && lbody != nil {
+			x := n
+			src := fieldOfSel(lsrc)
 			if src == "" {
 				return true
 			}
 			sets := map[string]bool{}
 			flags := map[string]bool{}
-			ast.Inspect(x.Body, func(y ast.Node) bool {
+			ast.Inspect(lbody, func(y ast.Node) bool {
 				switch z := y.(type) {
 				case *ast.CallExpr:
 					if recv := isSetOn(z); recv != nil {
@@ -1178,6 +1178,9 @@ func c08r3(c *core.Ctx) {
 				}
 				facts = append(facts, routeFact{src, mk, fl, x})
 			}
+			return true
+		}
+		switch x := n.(type) {
 		case *ast.CallExpr:
 			if k, cal, _ := m.Callee(x); k == core.CallStatic && sums[cal] != nil {
 				rs := sums[cal]
@@ -1578,16 +1581,23 @@ func c08r4(c *core.Ctx) {
 					}
 				}
 				// body: if !obs.hasX { anyNoX = true; break }; acc.OrI(&obs.xMask)
+				// (decided on paths: the flag store is reached exactly where the observer has no X-condition, the union
+				// where it has one, whatever the if/else/continue form)
 				sawWild, sawOr := false, false
+				hasX := func(e ast.Expr) bool { return fieldOfSel(e) == pair[0] }
+				owner := rem
+				for _, g := range withCallees(m, rem, 3) {
+					if g.Body != nil && g.Body.Pos() <= xBody.Pos() && xBody.End() <= g.Body.End() {
+						owner = g
+					}
+				}
 				ast.Inspect(xBody, func(y ast.Node) bool {
 					switch z := y.(type) {
-					case *ast.IfStmt:
-						if u, ok := ast.Unparen(z.Cond).(*ast.UnaryExpr); ok && u.Op == token.NOT && fieldOfSel(u.X) == pair[0] {
-							for _, s2 := range z.Body.List {
-								if as, ok := s2.(*ast.AssignStmt); ok && len(as.Lhs) == 1 {
-									if ix2, ok := ast.Unparen(as.Lhs[0]).(*ast.IndexExpr); ok && fieldOfSel(ix2.X) == pair[3] {
-										sawWild = true
-									}
+					case *ast.AssignStmt:
+						if len(z.Lhs) == 1 && len(z.Rhs) == 1 {
+							if ix2, ok := ast.Unparen(z.Lhs[0]).(*ast.IndexExpr); ok && fieldOfSel(ix2.X) == pair[3] {
+								if tv, ok := m.Info.Types[z.Rhs[0]]; ok && tv.Value != nil && tv.Value.String() == "true" && truthAt(m, owner, z, hasX) == -1 {
+									sawWild = true
 								}
 							}
 						}
@@ -1597,7 +1607,7 @@ func c08r4(c *core.Ctx) {
 							if u, ok := arg.(*ast.UnaryExpr); ok {
 								arg = u.X
 							}
-							if fieldOfSel(arg) == pair[2] {
+							if fieldOfSel(arg) == pair[2] && truthAt(m, owner, z, hasX) == 1 {
 								sawOr = true
 							}
 						}
